@@ -10,7 +10,7 @@ NeedsSig(x) == (x.tamper \in {"tsigTime", "tsigFudge", "tsigOrigId", "tsigError"
 
 Case == [r |-> r, p |-> p, mayEffect |-> MayEffect(r, p), honoured |-> Honoured(r, p),
          authentic |-> Authentic(r, p),
-         mustSignReply |-> ReplyMustBeSigned(r, p)]
+         mustSignReply |-> ReplyMustBeSigned(r, p), verified |-> Verified(r)]
 Emit == (pc = "policy" /\ Applicable(r) /\ NeedsSig(r)) => PrintT(<<"REPLAY", ToJson(Case)>>)
 \* only the initial states are needed
 Stop == FALSE
